@@ -52,9 +52,12 @@ func encStreams(w *prove.World, fn *ssa.Function) map[string][]codec.Atom {
 			continue
 		}
 		if len(ret.Results) >= 2 {
-			if k, isK := ret.Results[len(ret.Results)-1].(*ssa.Const); !isK || k.Value != nil {
-				// error return
-				if _, isConst := ret.Results[len(ret.Results)-1].(*ssa.Const); !isConst {
+			errV := ret.Results[len(ret.Results)-1]
+			if k, isK := errV.(*ssa.Const); !isK || k.Value != nil {
+				// a non-nil error… unless the function delegates: `return x.Marshal()`
+				ex0, ok0 := ret.Results[0].(*ssa.Extract)
+				ex1, ok1 := errV.(*ssa.Extract)
+				if !(ok0 && ok1 && ex0.Tuple == ex1.Tuple) {
 					continue
 				}
 			}
